@@ -160,6 +160,10 @@ FUNCS = [
     ("C07", "dataiter/aggregate.py", "nth", [], "agg_nth"),
     ("C07", "dataiter/aggregate.py", "median", [], "agg_median"),
     ("C07", "dataiter/aggregate.py", "select", [], "agg_select"),
+    ("C08", "dataiter/aggregate.py", "quantile_apply", [], "agg_quantile_apply_py"),
+    ("C08", "dataiter/aggregate.py", "count_unique_apply", [], "agg_count_unique_apply_py"),
+    ("C08", "dataiter/aggregate.py", "generic", [], "agg_generic_py"),
+    ("C08", "dataiter/aggregate.py", "yield_groups", [], "agg_yield_groups_py"),
     ("C08", "dataiter/aggregate.py", "yield_groups_numba", [], "agg_yield_groups_numba"),
     ("C08", "dataiter/aggregate.py", "generic_numba", [], "agg_generic_numba"),
     ("C08", "dataiter/aggregate.py", "nth_apply_numba", [], "agg_nth_apply_numba"),
